@@ -543,10 +543,9 @@ func check(id, tier string) int {
 		}
 	}
 	// 2. run all parts; at most 16 workers at a time
-	budget := 100
-	if m.ID == "C19" {
-		budget = 150 // seventeen scenarios; about 95 s on 16 idle cores
-	}
+	// quick: the heaviest checks (C09, C19, C13) need 80-100 s on 16 idle cores; the budget only
+	// matters on a loaded machine, where it turns "exhaustive" into false instead of running on
+	budget := 150
 	if tier == "thorough" {
 		budget = 1500
 	}
